@@ -646,37 +646,38 @@ func checkC43(c *Ctx, r *Report) {
 
 	// ---- R2
 	if cg := needFn(m, r, "C43.R2", pkgBrokerLib, "(*GroupCoordinator).cleanupGroups"); cg != nil {
-		removedEdges := passEdges(cg, []Atom{
-			atomBool("removed", vmCall(gstate+"removeExpiredMembers"), true),
-			atomBool("lostDuringRebalance", vmCall(gstate+"dropRebalanceLaggers"), true)})
-		if len(removedEdges) == 0 {
-			r.viol("C43.R2", "cleanupGroups reacts to removals", m.Pos(cg.Pos()), "results of removeExpiredMembers/dropRebalanceLaggers are not tested")
-		}
 		bad := ""
-		for e := range removedEdges {
-			found, _, path := search(SearchSpec{Start: Loc{e.from.Succs[e.succ], 0},
-				Target: func(in ssa.Instruction) bool {
-					if _, ok := in.(*ssa.Return); ok {
-						return true
-					}
-					return isCallTo(in, gstate+"removeExpiredMembers")
-				},
-				Blocker: func(in ssa.Instruction) bool {
-					if isCallTo(in, gstate+"startRebalance") {
-						return true
-					}
-					if c2, ok := in.(*ssa.Call); ok && calleeName(&c2.Call) == "builtin.delete" {
-						if _, f, _, ok := fieldOf(c2.Call.Args[0]); ok && f == "groups" {
+		for _, src := range []string{gstate + "removeExpiredMembers", gstate + "dropRebalanceLaggers"} {
+			calls := findCalls(cg, src)
+			if len(calls) == 0 {
+				bad = "cleanupGroups does not call " + src
+				continue
+			}
+			// paths on which this call reported "nothing removed" are exempt
+			falseEdges := passEdges(cg, []Atom{atomBool("nothing removed", vmCall(src), false)})
+			for _, call := range calls {
+				found, _, path := search(SearchSpec{Start: nextLoc(call),
+					Removed: func(b *ssa.BasicBlock, si int) bool { _, ok := falseEdges[edge{b, si}]; return ok },
+					Target: func(in ssa.Instruction) bool {
+						if _, ok := in.(*ssa.Return); ok {
 							return true
 						}
-					}
-					// the other flag being tested is not progress
-					return false
-				}})
-			if found {
-				// an edge of `removed` that continues to the test of `lostDuringRebalance` is fine only if that
-				// path also ends in startRebalance; the search above already follows it.
-				bad = "after a removal the loop continues without startRebalance or group deletion: " + renderPath(m, path)
+						return isCallTo(in, gstate+"removeExpiredMembers")
+					},
+					Blocker: func(in ssa.Instruction) bool {
+						if isCallTo(in, gstate+"startRebalance") {
+							return true
+						}
+						if c2, ok := in.(*ssa.Call); ok && calleeName(&c2.Call) == "builtin.delete" {
+							if _, f, _, ok := fieldOf(c2.Call.Args[0]); ok && f == "groups" {
+								return true
+							}
+						}
+						return false
+					}})
+				if found {
+					bad = "after " + src[strings.LastIndex(src, ".")+1:] + " reported a removal the loop can continue without startRebalance or group deletion: " + renderPath(m, path)
+				}
 			}
 		}
 		if bad == "" {
